@@ -89,7 +89,7 @@ func (w *tlogProofWorld) Record(rng *rand.Rand, n int, emit func(k string, in, o
 	st := &memStore{}
 	var leaves []refmerkle.Hash
 	for i := 0; i < size; i++ {
-		data := []byte(fmt.Sprintf("big %d %d\n", i, rng.Intn(1000)))
+		data := recData(i) // lengths sweep the boundaries of hash blocks and small buffers (1..1000 bytes)
 		hs, err := tlog.StoredHashes(int64(i), data, st)
 		if err != nil {
 			panic(err)
